@@ -5,19 +5,28 @@ names, natural numbers, operators and punctuation, block and line comments, blan
 import json
 import re
 
-_SYNTAX_NEW = {"NEW", "OLD_NEW", "OLD_NEW_PROPERTY", "NEW_PROPERTY", "NEW_GUIDING"}
+_SYNTAX = {"new": {"NEW", "OLD_NEW", "OLD_NEW_PROPERTY", "NEW_PROPERTY", "NEW_GUIDING"},
+           "old": {"OLD", "OLD_NEW", "OLD_NEW_PROPERTY", "OLD_PROPERTY"},
+           "property": {"PROPERTY", "OLD_NEW_PROPERTY", "NEW_PROPERTY", "PROPERTY_TIGA", "PROPERTY_PROB", "OLD_PROPERTY"}}
 
 
 class Scanner:
-    def __init__(self, lexemes_path):
+    def __init__(self, lexemes_path, syntax="new"):
         d = json.load(open(lexemes_path))
-        self.kw = {text: k["tok"] for text, k in d["kw"].items() if k["syntax"] in _SYNTAX_NEW}
+        self.kw = {text: k["tok"] for text, k in d["kw"].items() if k["syntax"] in _SYNTAX[syntax]}
+        if syntax == "old":
+            self.kw["const"] = "T_OLDCONST"        # lexer.l: `const` is T_OLDCONST when the old syntax is being read
         self.lit = {}
         for tok, texts in d["lit"].items():
             for x in texts:
                 if x and not (x[0].isalpha() or x[0] == "_"):
                     self.lit.setdefault(x, tok)
         self.maxlit = max(len(x) for x in self.lit)
+        self.syntax = syntax
+        # in queries the path quantifier letters are tokens of their own when they stand alone
+        self.letters = {x: tok for tok, texts in d["lit"].items() for x in texts if len(x) == 1 and x.isalpha()} if syntax == "property" else {}
+        # literal tokens that begin with a letter but are not words (`A[]`, `E<>`, `A<>`, `E[]` in queries)
+        self.wordlit = {x: tok for tok, texts in d["lit"].items() for x in texts if x and x[0].isalpha() and not x.isalnum()} if syntax == "property" else {}
 
     def scan(self, text, typenames):
         """-> list of {"t","n","s"}; typenames: identifiers the lexer would report as T_TYPENAME at that point (the scanner is given the
@@ -25,7 +34,10 @@ class Scanner:
         out, i, n = [], 0, len(text)
         while i < n:
             c = text[i]
-            if c.isspace():
+            if c == "\n" and self.syntax == "property":
+                out.append({"t": "'\\n'", "n": 0, "s": ""})          # queries are separated by line ends
+                i += 1
+            elif c.isspace():
                 i += 1
             elif text.startswith("//", i):
                 j = text.find("\n", i)
@@ -35,22 +47,39 @@ class Scanner:
                 if j < 0:
                     raise ValueError("unterminated comment")
                 i = j + 2
+            elif c.isalpha() and any(text.startswith(x, i) for x in self.wordlit):
+                x = max((x for x in self.wordlit if text.startswith(x, i)), key=len)
+                out.append({"t": self.wordlit[x], "n": 0, "s": ""})
+                i += len(x)
             elif c.isalpha() or c == "_":
                 m = re.match(r"[A-Za-z_][A-Za-z_0-9]*", text[i:])
                 w = m.group(0)
                 i += len(w)
-                if w in self.kw:
+                if w in self.letters:
+                    out.append({"t": self.letters[w], "n": 0, "s": ""})
+                elif w in self.kw:
                     out.append({"t": self.kw[w], "n": 0, "s": ""})
                 elif w in typenames:
                     out.append({"t": "T_TYPENAME", "n": 0, "s": w})
                 else:
                     out.append({"t": "T_ID", "n": 0, "s": w})
-            elif c.isdigit():
-                m = re.match(r"[0-9]+", text[i:])
-                i += len(m.group(0))
-                if re.match(r"[.eE]", text[i:i + 1] or " "):
-                    raise ValueError("floating literals are not in the universe")
-                out.append({"t": "T_NAT", "n": int(m.group(0)), "s": ""})
+            elif c == "@":
+                out.append({"t": "T_ERROR", "n": 0, "s": ""})      # a character the lexer has no rule for
+                i += 1
+            elif c == '"':
+                j = text.index('"', i + 1)
+                out.append({"t": "T_CHARARR", "n": 0, "s": text[i:j + 1]})
+                i = j + 1
+            elif c.isdigit() or (c == "." and text[i + 1:i + 2].isdigit()):
+                m = re.match(r"[0-9]*\.[0-9]+(?:[eE][-+]?[0-9]+)?|[0-9]+\.(?:[eE][-+]?[0-9]+)?|[0-9]+[eE][-+]?[0-9]+|[0-9]+", text[i:])
+                w = m.group(0)
+                i += len(w)
+                if w == "2147483648":
+                    out.append({"t": "T_POS_NEG_MAX", "n": 0, "s": ""})        # lexer.l: the one literal that is valid only under a unary minus
+                elif w.isdigit():
+                    out.append({"t": "T_NAT", "n": int(w), "s": ""})
+                else:
+                    out.append({"t": "T_FLOATING", "n": 0, "s": w})
             else:
                 for k in range(min(self.maxlit, n - i), 0, -1):
                     if text[i:i + k] in self.lit:
